@@ -141,11 +141,11 @@ func runLspHistory(texts []string, hist []lspReq) (obs []string, short []string,
 						if !ok {
 							k = "(DParsing " + coqStr("UNMATCHED (not a diagnostic of the latest text): "+d.Message) + ")"
 						}
-						sev := "SevWarning"
+						sev := "OSevWarning"
 						if d.Severity == 1 {
-							sev = "SevError"
+							sev = "OSevError"
 						} else if d.Severity != 2 {
-							sev = fmt.Sprintf("(SevOther %d)", int(d.Severity))
+							sev = fmt.Sprintf("(OSevOther %d)", int(d.Severity))
 						}
 						ds = append(ds, fmt.Sprintf("(mkdiag %s %s, %s)", lspRange(d.Range), k, sev))
 					}
